@@ -179,11 +179,12 @@ def odec? : Term → Option ODec
   | _ => none
 
 def probe? : Term → Option Nlri
-  | .list [.atom "panic", d] => (odec? d).map (fun x => .opq none x)
+  | .list [.atom "panic", d] => (odec? d).map (fun x => .opq .panic x)
+  | .list [.atom "err", d] => (odec? d).map (fun x => .opq .err x)
   | .list [e, d] => do
       let b ← asBytes? e
       let x ← odec? d
-      pure (.opq (some b) x)
+      pure (.opq (.ok b) x)
   | _ => none
 
 def entry? (p : Profile) : Term → Option (List Entry)
